@@ -11,6 +11,7 @@ DRIVER_DIR = os.path.join(VERIF, "driver")
 DRIVER = os.path.join(DRIVER_DIR, "target", "release", "ndi-facts")
 CACHE = os.path.join(VERIF, ".cache")
 TARGET = os.path.join(VERIF, ".target")
+TSUFFIX = os.environ.get("NDI_TARGET_SUFFIX", "")
 
 
 class ExtractionError(Exception):
@@ -127,7 +128,7 @@ def lib_facts():
                 p = os.path.join(CACHE, d)
                 if os.path.isdir(p) and d != key and time.time() - os.path.getmtime(p) > 3600:
                     shutil.rmtree(p, ignore_errors=True)
-            out = _run_driver(REPO, ["ndarray_interp"], os.path.join(TARGET, "lib"), cdir,
+            out = _run_driver(REPO, ["ndarray_interp"], os.path.join(TARGET, "lib" + TSUFFIX), cdir,
                               pkg_fingerprints=("ndarray-interp-",))
             f = out["ndarray_interp"]
             f["_cached"] = False
